@@ -10,6 +10,8 @@ decided by the differential oracle of harness/c08.py only (C08 is labelled parti
 import Proofs.Lemmas.MofStr
 import Proofs.Lemmas.MofNum
 import Proofs.Lemmas.MofArr
+import Proofs.Lemmas.MofValue
+import Proofs.Lemmas.MofQualList
 
 namespace C08
 open Pywbem.Proto Pywbem.Model Pywbem.Model.MofStr Pywbem.Model.MofLex Pywbem.Lemmas.MofStr
@@ -157,6 +159,202 @@ theorem C08_char16_literal_denotes (c : Nat) : fixStringValue (39 :: escape [c] 
 /-- ... but the compiler hands the charValue token on unchanged (known finding C08-F1), so the round trip
     of a char16 value fails already for `'a'`: PARTIAL — the string theorems above exclude char16. -/
 theorem C08_char16_roundtrip_fails_at : ¬ (charConstantValue [39, 97, 39] = [97]) := by decide
+
+/-! ## Stage 1 of the declaration level: typed values
+
+`valueToMof` mirrors `_value_tomof` / `_scalar_value_tomof` over typed CIM values (Model/MofVal.lean),
+`parseValue` mirrors the lexer, the value productions (`p_initializer`, `p_arrayInitializer`,
+`p_constantValueList`, `p_constantValue`, `p_integerValue`, `p_booleanValue`, `p_nullValue`,
+`p_stringValueList`) and the typing by `cimvalue`.  Conversions the model does not look into (float repr /
+float(), CIMDateTime, WBEM URI) are the `Codec`; their laws are the hypothesis record `CodecLaws` (no axioms). -/
+
+open Pywbem.Model.MofVal Pywbem.Lemmas.MofValue in
+/-- VALUE ROUND TRIP (partial: char16 excluded, see `C08_char16_value_roundtrip_fails_at`).
+    Full statement intended: for every CIM type and every value the object model can hold for it,
+    `parseValue (valueToMof v) = v`.  Proved: for every type, every scalar and every array (any length, NULL
+    items allowed) of strings (any content and length), booleans, integers of all 8 types within the range of
+    the type, reals (through `CodecLaws`), datetimes and references (through `CodecLaws`), every
+    `maxline ≥ indent + 8`, start column, end_space, avoid_splits: whenever `_value_tomof` returns text, reading
+    and typing that text gives exactly the value back. -/
+theorem C08_value_roundtrip_partial (c : Codec) (L : CodecLaws c) (ty : CimType) (v : Value c)
+    (hv : ValueOk c L ty v) (indent maxline : Nat) (hw : indent + 8 ≤ maxline) (linePos : Int) (endSpace : Nat)
+    (avoid : Bool) (mof : List Nat) (lp : Int)
+    (hr : valueToMof c ty v indent maxline linePos endSpace avoid = .ok (mof, lp)) :
+    parseValue c ty (Value.isArray v) mof = some v := by
+  cases v with
+  | scalar s =>
+    simp only [valueToMof] at hr
+    cases hi : scalarItem c ty s with
+    | error e => simp [hi] at hr
+    | ok i =>
+      simp only [hi, valueTomof] at hr
+      obtain ⟨toks, hst, hlex⟩ := scalar_lex c L ty s hv indent maxline hw linePos endSpace avoid i hi mof lp hr
+      have h0 := hlex [] trivial
+      simp only [List.append_nil] at h0
+      have hl0 : lexToks ([] : List Nat) = some [] := rfl
+      rw [hl0] at h0
+      simp only [Option.map_some, List.append_nil] at h0
+      have hp := parseConst_scalar c s toks [] hst trivial
+      simp only [List.append_nil] at hp
+      simp [parseValue, Value.isArray, h0, hp, typeRaw_scalar c L ty s hv]
+  | array xs =>
+    simp only [valueToMof] at hr
+    cases hi : scalarItems c ty xs with
+    | error e => simp [hi] at hr
+    | ok is =>
+      simp only [hi, valueTomof] at hr
+      obtain ⟨tokss, hall, hlex⟩ := array_lex c L ty indent maxline hw endSpace avoid xs is true linePos mof lp hv hi hr
+      have h0 := hlex [] trivial
+      simp only [List.append_nil] at h0
+      have hl0 : lexToks ([] : List Nat) = some [] := rfl
+      rw [hl0] at h0
+      simp only [Option.map_some, List.append_nil] at h0
+      cases hall with
+      | nil => simp [parseValue, Value.isArray, h0, joinToks]
+      | cons hs hrest =>
+        rename_i s ss t ts
+        have hlen := joinToks_length c (s :: ss) (t :: ts) true (.cons hs hrest)
+        have hne : joinToks true (t :: ts) ≠ [] := by
+          intro e; rw [e] at hlen; simp at hlen
+        have hpl : parseConstList (joinToks true (t :: ts)) = some ((s :: ss).map (rawOf c), []) := by
+          unfold parseConstList
+          have := parseConstList_join c ss ts s t hs hrest ((joinToks true (t :: ts)).length + 1)
+            (by simp only [List.length_cons] at hlen; omega)
+          simpa [joinToks] using this
+        simp only [parseValue, Value.isArray, h0, if_true, hne, if_false, hpl]
+        rw [typeRaws_scalars c L ty (s :: ss) hv]
+        rfl
+
+open Pywbem.Model.MofVal Pywbem.Lemmas.MofValue in
+/-- The generator side fails on such values only with the ValueError documented for `mofval` (a non-string
+    literal wider than the line: known finding C08-F2), never with the "endless loop" assertion or a TypeError. -/
+theorem C08_value_tomof_fails_only_with_valueerror (c : Codec) (L : CodecLaws c) (ty : CimType) (v : Value c)
+    (hv : ValueOk c L ty v) (indent maxline : Nat) (hw : indent + 8 ≤ maxline) (linePos : Int) (endSpace : Nat)
+    (avoid : Bool) (e : PyExc) (hr : valueToMof c ty v indent maxline linePos endSpace avoid = .error e) :
+    e = .valueError := by
+  cases v with
+  | scalar s =>
+    obtain ⟨i, hi, hni⟩ := scalarItem_ok c L ty s hv
+    simp only [valueToMof, hi, valueTomof] at hr
+    exact scalarTomof_err i hni indent maxline hw linePos endSpace avoid e hr
+  | array xs =>
+    obtain ⟨is, hi, hni⟩ := scalarItems_ok c L ty xs hv
+    simp only [valueToMof, hi, valueTomof] at hr
+    exact arrayTomof_err indent maxline hw endSpace avoid is hni true linePos e hr
+
+/-- toy codec (texts are their own carriers) and laws for it on the two-element float domain
+    {"1.5", "1e+16"}: the hypothesis record is satisfiable and the two laws about floats are used -/
+@[reducible] def toyCodec : Pywbem.Model.MofVal.Codec :=
+  { F := Bool, D := List Nat, R := List Nat,
+    realStr := fun b => if b then [49, 46, 53] else [49, 101, 43, 49, 54],
+    realParse := fun t => if t = [49, 46, 53] then some true
+                          else if t = [49, 101, 43, 49, 54] ∨ t = [49, 46, 48, 101, 43, 49, 54] then some false else none,
+    dtStr := id, dtParse := some, refStr := id, refParse := some }
+
+def toyLaws : Pywbem.Model.MofVal.CodecLaws toyCodec :=
+  { realOk := fun _ => True,
+    realShape := fun (b : Bool) =>
+      if b then ⟨false, [49], some [53], none⟩ else ⟨false, [49], none, some (false, [49, 54])⟩,
+    realShapeOk := by intro (x : Bool) _; cases x <;> exact ⟨rfl, rfl⟩,
+    realRt := by intro (x : Bool) _; cases x <;> rfl,
+    realDot0 := by intro (x : Bool) _ h; cases x <;> first | rfl | (simp at h),
+    dtOk := fun _ => True, dtRt := fun _ _ => rfl, refOk := fun _ => True, refRt := fun _ _ => rfl }
+
+-- non-vacuity: a real64 array with NULL, a value printed by repr without a fraction (1e+16 -> 1.0e+16) and 1.5
+example : Pywbem.Model.MofVal.valueToMof toyCodec .real64 (.array [.real false, .null, .real true]) 3 80 10 1 true =
+    .ok ([49, 46, 48, 101, 43, 49, 54, 44, 32, 78, 85, 76, 76, 44, 32, 49, 46, 53], 28) := by rfl
+example : Pywbem.Model.MofVal.parseValue toyCodec .real64 true
+    [49, 46, 48, 101, 43, 49, 54, 44, 32, 78, 85, 76, 76, 44, 32, 49, 46, 53] =
+    some (.array [.real false, .null, .real true]) :=
+  C08_value_roundtrip_partial toyCodec toyLaws .real64 (.array [.real false, .null, .real true])
+    (by intro s hs; simp at hs; rcases hs with h | h | h <;> subst h <;> simp [Pywbem.Lemmas.MofValue.ScalarOk, toyLaws, Pywbem.Model.MofVal.CimType.isReal])
+    3 80 (by decide) 10 1 true _ 28 (by rfl)
+-- an integer outside the range of its type is not `ScalarOk` (and the reader refuses it)
+example : Pywbem.Model.MofVal.parseValue toyCodec .uint8 false [50, 53, 54] = none := by rfl
+
+/-- char16 (known finding C08-F1): the value `a` of type char16 is written as `'a'` and read back as the
+    3-character text, so the value round trip fails at char16 — the exclusion in `ScalarOk` is necessary. -/
+theorem C08_char16_value_roundtrip_fails_at :
+    Pywbem.Model.MofVal.valueToMof toyCodec .char16 (.scalar (.char16 [97])) 3 80 0 0 false = .ok ([39, 97, 39], 3) ∧
+    ¬ (Pywbem.Model.MofVal.parseValue toyCodec .char16 false [39, 97, 39] = some (.scalar (.char16 [97]))) := by
+  constructor
+  · rfl
+  · intro h
+    have : Pywbem.Model.MofVal.parseValue toyCodec .char16 false [39, 97, 39] = some (.scalar (.char16 [39, 97, 39])) := by rfl
+    rw [this] at h
+    injection h with h
+    injection h with h
+    injection h with h
+    exact absurd h (by decide)
+
+/-! ## Stage 2 of the declaration level: qualifier declarations and qualifier lists
+
+`qualDeclTomof` mirrors `CIMQualifierDeclaration.tomof`, `qualifiersTomof` mirrors `_qualifiers_tomof` +
+`CIMQualifier.tomof`; `readQualDecl` / `readQualList` are the hand-written reader over the tokens of `lexToks`,
+mirroring `p_qualifierDeclaration` (`p_qualifierType_1/_2`, `p_array`, `p_defaultValue`, `p_scope*`,
+`p_defaultFlavor`, `p_flavorListWithComma`, `_build_flavors`) and `p_qualifierList` / `p_qualifier` /
+`p_qualifierParameter` (Model/MofDecl.lean).  PLY's LALR tables are not modelled (trusted, observed by K). -/
+
+open Pywbem.Model.MofVal Pywbem.Model.MofDecl Pywbem.Lemmas.MofQual in
+/-- QUALIFIER DECLARATION ROUND TRIP, modulo exactly the documented defaults (`normQualDecl`: the flavor
+    `translatable` survives only when true, `toinstance` is never written).  For every qualifier declaration MOF
+    can express (`QualDeclOk`: an identifier as name, any non-reference type, scalar or array with or without
+    size, no default or any default value of stage 1, any non-empty scope set, any flavors) and every
+    `maxline ≥ 11`: if tomof() returns text, the reader returns the normalised declaration. -/
+theorem C08_qualifier_declaration_roundtrip (c : Codec) (L : CodecLaws c) (qd : QualDecl c)
+    (hok : QualDeclOk c L qd) (maxline : Nat) (hm : Pywbem.Generated.mofIndent + 8 ≤ maxline) (text : List Nat)
+    (hr : qualDeclTomof c qd maxline = .ok text) : readQualDecl c text = some (normQualDecl qd) :=
+  qualDecl_roundtrip c L qd hok maxline hm text hr
+
+open Pywbem.Model.MofVal Pywbem.Model.MofDecl Pywbem.Lemmas.MofQualList in
+/-- QUALIFIER LIST ROUND TRIP.  For every list of qualifier values (any number, any order) whose declarations are
+    in the repository and whose type and flavors are those of their declaration (tomof() writes no flavors on
+    qualifier values: the compiler takes them from the declaration), with scalar (NULL included, after the fix
+    "explicit NULL qualifier value") or array values of stage 1, every indentation and every
+    `maxline ≥ indent + 12`: if `_qualifiers_tomof` returns text, the reader returns exactly the list. -/
+theorem C08_qualifier_list_roundtrip (c : Codec) (L : CodecLaws c) (decls : List (QualDecl c))
+    (qs : List (Qualifier c)) (hok : ∀ q ∈ qs, QualifierOk c L decls q) (indent maxline : Nat)
+    (hm : indent + 1 + Pywbem.Generated.mofIndent + 8 ≤ maxline) (text : List Nat)
+    (hr : qualifiersTomof c qs indent maxline = .ok text) : readQualList c decls text = some qs :=
+  qualifiers_roundtrip c L decls qs hok indent maxline hm text hr
+
+section Stage2Examples
+open Pywbem.Model.MofVal Pywbem.Model.MofDecl Pywbem.Lemmas.MofQual Pywbem.Lemmas.MofQualList Pywbem.Lemmas.MofDoc
+open Pywbem.Lemmas.MofValue
+
+/-- `Qualifier Desc : string = "a", Scope(class, any), Flavor(EnableOverride, Translatable);` with toinstance=False -/
+def exDecl : QualDecl toyCodec :=
+  ⟨[68, 101, 115, 99], .string, false, none, some (.scalar (.str [97])),
+   [true, false, false, false, false, false, false, true], ⟨some true, none, some true, some false⟩⟩
+
+theorem exDecl_ok : QualDeclOk toyCodec toyLaws exDecl :=
+  { nameWord := ⟨68, [101, 115, 99], rfl, by decide, by decide⟩, nameOk := by rfl, tyOk := by decide,
+    sizeArr := fun h => absurd h (by decide), scopesLen := rfl, scopeSome := by decide,
+    valueOk := by
+      intro v hv
+      have : v = .scalar (.str [97]) := by injection hv with hv; exact hv.symm
+      subst this
+      exact ⟨rfl, rfl, by simp⟩ }
+
+-- non-vacuity of the declaration round trip; the normalisation drops toinstance=False
+example : ∃ text, qualDeclTomof toyCodec exDecl 80 = .ok text ∧
+    readQualDecl toyCodec text = some (normQualDecl exDecl) ∧ (normQualDecl exDecl).flavors = ⟨some true, none, some true, none⟩ :=
+  ⟨_, rfl, C08_qualifier_declaration_roundtrip toyCodec toyLaws exDecl exDecl_ok 80 (by decide) _ rfl, rfl⟩
+
+/-- `[desc ( "x" ), Desc ( NULL )]` against the declaration above: name in another case, explicit NULL -/
+def exQuals : List (Qualifier toyCodec) :=
+  [⟨[100, 101, 115, 99], .string, .scalar (.str [120]), exDecl.flavors⟩,
+   ⟨[68, 101, 115, 99], .string, .scalar .null, exDecl.flavors⟩]
+
+example : ∃ text, qualifiersTomof toyCodec exQuals 3 80 = .ok text ∧ readQualList toyCodec [exDecl] text = some exQuals := by
+  refine ⟨_, rfl, C08_qualifier_list_roundtrip toyCodec toyLaws [exDecl] exQuals ?_ 3 80 (by decide) _ rfl⟩
+  intro q hq
+  simp only [exQuals, List.mem_cons, List.mem_nil_iff, or_false] at hq
+  rcases hq with hq | hq <;> subst hq
+  · exact ⟨⟨100, [101, 115, 99], rfl, by decide, by decide⟩, by rfl, ⟨exDecl, by rfl, rfl, rfl⟩, rfl⟩
+  · exact ⟨⟨68, [101, 115, 99], rfl, by decide, by decide⟩, by rfl, ⟨exDecl, by rfl, rfl, rfl⟩, trivial⟩
+
+end Stage2Examples
 
 /-! Non-vacuity and necessity of the hypotheses -/
 
